@@ -10,10 +10,12 @@ import (
 
 func init() {
 	register("C17", func(r *Report) {
-		r.Explanation = "Decides the three clauses structurally, for all loss patterns: (R1) exploring the client dispatcher per (trigger, stored transaction type, transaction state): a publish-QoS 1 transaction succeeds only on PUBACK in the state the API entered when it sent the PUBLISH; a QoS 2 one answers PUBREC with PUBREL only in its initial state, moves to the next state, and succeeds only on PUBCOMP in that state; the API returns the transaction's Err() once Done fires; (R2) for every client transaction constructor the retry callback re-sends the packet it is handed (the stored step packet: same object, same message ID) and, when any packet stored for that transaction has a DUP flag, sets DUP on every path on which the packet has one; (R3) the PUBREL case hands a PUBCOMP with the PUBREL's message ID to the sender on every path that returns nil - whatever transaction (none, the matching one, one of another kind) is stored under that ID; (R4) errors of step handlers are returned by the dispatcher; (R5) the PUBLISH transaction is registered in the store before the PUBLISH is sent. Not decided: 'within the retry budget' timing."
+		r.Explanation = "Decides the three clauses structurally, for all loss patterns: (R1) exploring the client dispatcher per (trigger, stored transaction type, transaction state): a publish-QoS 1 transaction succeeds only on PUBACK in the state the API entered when it sent the PUBLISH; a QoS 2 one answers PUBREC with PUBREL only in its initial state, moves to the next state, and succeeds only on PUBCOMP in that state; the API returns the transaction's Err() once Done fires; (R2) for every client transaction constructor the retry callback re-sends the packet it is handed (the stored step packet: same object, same message ID) and, when any packet stored for that transaction has a DUP flag, sets DUP on every path on which the packet has one; (R3) the PUBREL case hands a PUBCOMP with the PUBREL's message ID to the sender on every path that returns nil - whatever transaction (none, the matching one, one of another kind) is stored under that ID; (R4) errors of step handlers are returned by the dispatcher; (R5) the PUBLISH transaction is registered in the store before the PUBLISH is sent; (R8) the goroutine that reads the acknowledgements and PUBRELs never runs application code: every call of a subscription callback reachable from the dispatcher is a go statement; (R9) the client never forgets a topic ID it once knew (no delete on, no replacement of the maps the REGISTER/SUBACK handlers fill), so the lookup the PUBREL handler performs before PUBCOMP cannot start failing for a stored PUBLISH. Not decided: 'within the retry budget' timing."
 		r.floor("R1", 6)
 		r.floor("R2", 6)
 		r.floor("R3", 3)
+		r.floor("R8", 1)
+		r.floor("R9", 1)
 	}, checkC17)
 	register("C16", func(r *Report) {
 		r.Explanation = "Decides: (R1) the gateway's retry callback re-sends exactly the object it is handed - the step data stored by the last Proceed (same message ID and payload); (R2) it sets DUP whenever that object has a DUP flag (MQTT-SN packets with the DUP property, MQTT PUBLISH); (R3) the per-step tables of the broker-publish transactions, extracted by exploring each handler per transaction state: QoS 1 awaitingRegack -> awaitingPuback -> done, QoS 2 awaitingRegack -> awaitingPubrec -> awaitingPubrel -> awaitingPubcomp -> done, each step forwarding the acknowledgement to the right side with the trigger's message ID, and a handler in the wrong state neither sends nor changes state; (R4) budget stop: after the retry budget the transaction fails and nothing re-arms (C18-R2/C19-R1, re-checked here); (R5) the peer side: the client stores every received QoS 2 PUBLISH for the PUBREL and answers every PUBREL (C17-R3). (R7) the REGISTER step survives a lost REGACK: the client answers a REGISTER of an unknown name and a REGISTER repeating a known (name, ID) pair with REGACK(accepted). Not decided: end-to-end delivery for a given loss pattern; handler-exactly-once (history)."
@@ -565,6 +567,8 @@ func checkC17(c *Ctx, r *Report) {
 	c.checkClientQoS2Receive(r, "R6", m)
 	// R7: nothing the acknowledgement has to pass through is blocked by the waiting API call itself (C28-R7)
 	importRules(c, r, "C28", map[string]string{"R7": "R7"})
+	c.checkClientCallbacksAsync(r, "R8", m)
+	c.checkClientRegistryMonotone(r, "R9", m)
 	// R2
 	c.checkRetryCallbacks(r, "R2", "client", m.snSenders)
 	// R3: PUBREL always answered
@@ -1029,4 +1033,164 @@ func (c *Ctx) checkClientQoS2Receive(r *Report, rule string, cm *gwModel) {
 func isEmptyInterface(t types.Type) bool {
 	it, ok := t.Underlying().(*types.Interface)
 	return ok && it.NumMethods() == 0
+}
+
+// checkClientCallbacksAsync (C17-R8): the receive loop never runs application code. The acknowledgements Publish waits
+// for (PUBACK, PUBREC, PUBCOMP) and the PUBRELs the client must answer are all read by one goroutine; a subscription
+// callback called synchronously on it keeps them unread for as long as the application likes (a callback that itself
+// publishes with QoS >= 1 waits for an acknowledgement that cannot be read). Application callbacks = values of the
+// named function types of package client that exported methods of the client take as parameters. Every call of such a
+// value in a function reachable from the dispatcher must be a go statement.
+func (c *Ctx) checkClientCallbacksAsync(r *Report, rule string, m *gwModel) {
+	cbTypes := map[string]bool{}
+	for _, f := range c.repoFuncs("client") {
+		if f.Parent() != nil || f.Signature.Recv() == nil || f.Object() == nil || !f.Object().Exported() {
+			continue
+		}
+		ps := f.Signature.Params()
+		for k := 0; k < ps.Len(); k++ {
+			if nt, ok := ps.At(k).Type().(*types.Named); ok {
+				if _, isFn := nt.Underlying().(*types.Signature); isFn && nt.Obj().Pkg() != nil && nt.Obj().Pkg().Path() == pkClient {
+					cbTypes[nt.Obj().Name()] = true
+				}
+			}
+		}
+	}
+	if len(cbTypes) == 0 {
+		r.undecided(rule, "client:application-callback-types", "-", "no exported client method takes a named callback type")
+		return
+	}
+	// functions reachable from the dispatcher
+	reach := map[*ssa.Function]bool{}
+	cg := c.CG()
+	work := []*ssa.Function{m.snDisp}
+	for len(work) > 0 {
+		f := work[len(work)-1]
+		work = work[:len(work)-1]
+		if reach[f] {
+			continue
+		}
+		reach[f] = true
+		// closures run synchronously unless started with go; a go-started closure is no longer on the receive loop
+		if n := cg.Nodes[f]; n != nil {
+			for _, e := range n.Out {
+				if _, isGo := e.Site.(*ssa.Go); isGo {
+					continue
+				}
+				if e.Callee != nil && e.Callee.Func != nil && fnPkgPath(e.Callee.Func) == pkClient {
+					work = append(work, e.Callee.Func)
+				}
+			}
+		}
+	}
+	n := 0
+	for _, f := range c.repoFuncs("client") {
+		allInstrs(f, func(i ssa.Instruction) {
+			ci, ok := i.(ssa.CallInstruction)
+			if !ok || ci.Common().IsInvoke() {
+				return
+			}
+			nt, ok := ci.Common().Value.Type().(*types.Named)
+			if !ok || nt.Obj().Pkg() == nil || nt.Obj().Pkg().Path() != pkClient || !cbTypes[nt.Obj().Name()] {
+				return
+			}
+			n++
+			r.fn(f)
+			key := fmt.Sprintf("%s:call-of(%s)", fnKey(f), nt.Obj().Name())
+			_, isGo := i.(*ssa.Go)
+			switch {
+			case isGo:
+				r.ok(rule, key, c.instrPos(i), "the application callback runs in its own goroutine")
+			case !reach[f]:
+				r.ok(rule, key, c.instrPos(i), "called synchronously, but not on the receive loop")
+			default:
+				r.bad(rule, key, c.instrPos(i), "an application callback ("+nt.Obj().Name()+") is called synchronously on the goroutine that reads the gateway's packets: until it returns no PUBACK/PUBREC/PUBCOMP is read (a callback that publishes with QoS 1 or 2 exhausts its retry budget although the gateway acknowledged at once) and no PUBREL is answered")
+			}
+		})
+	}
+	if n == 0 {
+		r.undecided(rule, "client:application-callback-calls", "-", "no call of an application callback found in package client")
+	}
+}
+
+// checkClientRegistryMonotone (C17-R9): the PUBREL handler of a stored QoS 2 PUBLISH resolves the PUBLISH's topic ID
+// before it answers; its only exit without PUBCOMP is a failed lookup. The stored PUBLISH was sent by the gateway with
+// an ID the client had acknowledged (REGACK) or been given (SUBACK, REGISTER) - so that exit is unreachable exactly as
+// long as the client never forgets a topic ID it once knew: the maps the dispatcher's REGISTER case writes are never
+// shrunk (no delete) and never replaced outside the constructor.
+func (c *Ctx) checkClientRegistryMonotone(r *Report, rule string, m *gwModel) {
+	cells := map[string]bool{}
+	var mark func(f *ssa.Function, d int)
+	seen := map[*ssa.Function]bool{}
+	mark = func(f *ssa.Function, d int) {
+		if seen[f] || d > 2 {
+			return
+		}
+		seen[f] = true
+		allInstrs(f, func(i ssa.Instruction) {
+			if mu, ok := i.(*ssa.MapUpdate); ok {
+				if u, ok := mu.Map.(*ssa.UnOp); ok {
+					if fa, ok := u.X.(*ssa.FieldAddr); ok {
+						if mt, ok := u.Type().Underlying().(*types.Map); ok {
+							kb, _ := mt.Key().Underlying().(*types.Basic)
+							eb, _ := mt.Elem().Underlying().(*types.Basic)
+							if (kb != nil && kb.Kind() == types.Uint16) || (eb != nil && eb.Kind() == types.Uint16) {
+								cells[fieldCell(fa)] = true
+							}
+						}
+					}
+				}
+			}
+		})
+	}
+	mark(m.snDisp, 0)
+	for _, f := range c.repoFuncs("client") {
+		// the SUBACK continuation stores the assigned ID too
+		if f.Signature.Recv() != nil && c.functionHasParam(f, pkPackets1, "Suback") {
+			mark(f, 0)
+		}
+	}
+	if len(cells) == 0 {
+		r.undecided(rule, "client:topic-registry", "-", "no (name <-> uint16 ID) map written by the client's dispatcher found")
+		return
+	}
+	for cell := range cells {
+		key := "client:topic-registry(" + stableFieldKeyOfCell(cell) + "):never-shrinks"
+		bad := ""
+		n := 0
+		for _, f := range c.repoFuncs("client") {
+			allInstrs(f, func(i ssa.Instruction) {
+				switch x := i.(type) {
+				case ssa.CallInstruction:
+					if b, ok := x.Common().Value.(*ssa.Builtin); ok && (b.Name() == "delete" || b.Name() == "clear") && len(x.Common().Args) > 0 {
+						if u, ok := x.Common().Args[0].(*ssa.UnOp); ok {
+							if fa, ok := u.X.(*ssa.FieldAddr); ok && fieldCell(fa) == cell {
+								n++
+								bad = c.instrPos(i) + ": " + fnKey(f) + " removes entries"
+							}
+						}
+					}
+				case *ssa.Store:
+					if fa, ok := x.Addr.(*ssa.FieldAddr); ok && fieldCell(fa) == cell {
+						n++
+						if !isFreshObject(fa.X) {
+							bad = c.instrPos(i) + ": " + fnKey(f) + " replaces the map of a live client"
+						}
+					}
+				case *ssa.MapUpdate:
+					if u, ok := x.Map.(*ssa.UnOp); ok {
+						if fa, ok := u.X.(*ssa.FieldAddr); ok && fieldCell(fa) == cell {
+							n++
+						}
+					}
+				}
+			})
+		}
+		r.cond(bad == "", rule, key, c.pos(m.snDisp.Pos()), fmt.Sprintf("%d writes: entries are only added, the map is only set at construction", n),
+			"the client forgets topic IDs it once knew ("+bad+"): a QoS 2 PUBLISH received before is still stored with that ID, its PUBREL then fails the lookup, no PUBCOMP is sent and the receive loop ends with the error - every later PUBREL stays unanswered")
+	}
+}
+
+func stableFieldKeyOfCell(cell string) string {
+	return strings.TrimPrefix(cell, "f:")
 }
